@@ -440,7 +440,7 @@ class Engine(Interp):
     def verify_function(self, q):
         """Explore all paths of q against its contract; obligations accumulate in self.ctx."""
         c = self.reg.contracts[q]
-        fnode, modname, cls, path, h = self.src.find(q)
+        fnode, modname, cls, path, h = self.src.find(c.of or q)
         clsq = (modname + "." + cls) if cls else None
         is_method = cls is not None and not any(
             isinstance(d, ast.Name) and d.id == "staticmethod" for d in fnode.decorator_list)
